@@ -51,7 +51,7 @@ type Run struct {
 	nextPV   int
 	nilPV    int
 	viols    []string
-	stuck    bool // a lane goroutine or producer is known to be stuck: later goroutine dumps are unreliable
+	stuck    atomic.Bool // a lane goroutine, producer or Status() call is known to be stuck: later goroutine dumps are unreliable
 	aux      sync.WaitGroup
 }
 
@@ -206,7 +206,10 @@ func (t *Task) Release() {
 	}
 }
 
-func (t *Task) Start() {
+func (t *Task) Start() { t.startWith(nil) }
+
+// startWith is Start() with an optional body run between S and F (after the gate / sleep).
+func (t *Task) startWith(body func()) {
 	r := t.r
 	if r.Record {
 		r.mu.Lock()
@@ -229,6 +232,9 @@ func (t *Task) Start() {
 	}
 	for i := 0; i < t.spin; i++ {
 		runtime.Gosched()
+	}
+	if body != nil {
+		body()
 	}
 	res := "ret"
 	if t.pv >= 0 {
@@ -419,10 +425,39 @@ func (r *Run) Cancel(err error) {
 }
 
 // Status performs one observed Status() call; lp is the LastPanic value id (-1 none, -2 foreign value).
+// Status() must never block (C14): a call that has not returned within the liveness bound is reported
+// as "status-blocked" and the run is marked stuck; it then returns (-3, -3).
 func (r *Run) Status() (pending, lp int) {
 	o := int(r.nextObs.Add(1))
 	r.rec("Qb:" + strconv.Itoa(o))
-	s := r.L.Status()
+	type ans struct {
+		s   *tasklane.LaneStatus
+		err any
+	}
+	ch := make(chan ans, 1)
+	go func() {
+		var a ans
+		defer func() {
+			if x := recover(); x != nil {
+				a.err = x
+			}
+			ch <- a
+		}()
+		a.s = r.L.Status()
+	}()
+	var s *tasklane.LaneStatus
+	select {
+	case a := <-ch:
+		if a.err != nil {
+			r.Violation("status-panicked: Status() panicked: %v", a.err)
+			return -3, -3
+		}
+		s = a.s
+	case <-time.After(LiveBound):
+		r.stuck.Store(true)
+		r.Violation("status-blocked: Status() has not returned after %v (tasks inside Start(): %d)", LiveBound, r.curRunning())
+		return -3, -3
+	}
 	pending, lp = s.PendingTask, r.pvID(s.LastPanic)
 	v := "-"
 	if lp >= 0 {
@@ -452,26 +487,30 @@ func (r *Run) PendingSettles(want int, d time.Duration) (last int, ok bool) {
 	return
 }
 
-// Wait calls Wait() and reports whether it returned within d; records W.
-func (r *Run) Wait(d time.Duration) bool {
-	ch := make(chan struct{})
-	go func() {
-		r.L.Wait()
-		r.mu.Lock()
-		if r.Record {
-			r.evs = append(r.evs, "W")
-		}
-		r.waited = true
-		r.mu.Unlock()
-		close(ch)
-	}()
-	select {
-	case <-ch:
-		return true
-	case <-time.After(d):
-		r.stuck = true
-		return false
+// Wait calls Wait() from `callers` goroutines at once (>= 1) and reports whether all of them returned within d;
+// records W when the first one returns.
+func (r *Run) Wait(d time.Duration) bool { return r.WaitMany(1, d) }
+
+func (r *Run) WaitMany(callers int, d time.Duration) bool {
+	ch := make(chan struct{}, callers)
+	var first sync.Once
+	for i := 0; i < callers; i++ {
+		go func() {
+			r.L.Wait()
+			first.Do(r.markWaited)
+			ch <- struct{}{}
+		}()
 	}
+	deadline := time.After(d)
+	for i := 0; i < callers; i++ {
+		select {
+		case <-ch:
+		case <-deadline:
+			r.stuck.Store(true)
+			return false
+		}
+	}
+	return true
 }
 
 func (r *Run) markWaited() {
@@ -509,7 +548,7 @@ func (r *Run) Leaks() int {
 	WaitUntil(300*time.Millisecond, func() bool { n = LaneGoroutines(); return n == 0 })
 	r.rec("Z:" + strconv.Itoa(n))
 	if n != 0 {
-		r.stuck = true
+		r.stuck.Store(true)
 	}
 	return n
 }
